@@ -295,7 +295,7 @@ ROUND7 = {
     "C08": " Round-7 clauses: the op verifier measures the stride pattern as written, the object the value generator indexes per hardware dimension; a kernel loop count is read through pattern methods and a product over a filtered subset of the bounds is rejected.",
     "C10": " Round-7 clause: every verdict of self_overlaps is computed from all_values(); a closed-form overlap test is an analysis error (fails closed), never a pass.",
     "C12": " Round-7 clauses: a constant / global / alloc is re-typed only if every user is a cast (F-48, fixed); a chain of casts is followed only through casts whose sole user is the next cast (F-52, fixed); the layout built for a re-laid-out global keeps the offset of the target layout the rebuilt subview is typed with; the read/write classification of a use may live in a module helper and is judged on its return sites.",
-    "C11": " Round-7 clause: lifetimes follow every view-like op of the memref dialect (subview, the casts, expand_shape, collapse_shape) and snax.layout_cast (F-55, fixed).",
+    "C11": " Round-7 clause: lifetimes follow every view-like op of the memref dialect (subview, the casts, expand_shape, collapse_shape) and snax.layout_cast (F-55, fixed); the solver's offsets count from memory.start rounded up to the buffers' alignment (F-59, fixed).",
     "C13": " Round-7 clause: a barrier (inserted or found) takes from the pending list only the ops of its own block, never all of them (F-53, fixed); the users examined for an op include those of every value standing for the same buffer (view closure; F-54, fixed).",
     "C14": " Round-7 clauses: the move loop may drain the pending list from the front (pop(0)), draining from the back reverses the group; every SupportedKernel is built with a re-iterable sequence (no one-shot iterator); dispatch_to_compute declines an xDMA region only if some extension provides its kernel (F-51, fixed).",
     "C15": " Round-7 clause: ConstructPipeline redirects no value to a result of the index op it builds (the 'defined by the index op => safe' shortcut of PipelineDuplicateBuffers has that pass as its only producer).",
